@@ -36,7 +36,10 @@ def parseOptErr (w : String) : Option (Option ErrClass) :=
 
 def parseItem (w : String) : Option Item :=
   match w.splitOn "|" with
-  | [l, id, ens, f] => do some ⟨← parseLib l, id, ens, ← parseOptErr f⟩
+  | [l, id, ens, f] => do
+    let soft := f.endsWith "~"
+    let f := if soft then (f.dropEnd 1).toString else f
+    some ⟨← parseLib l, id, ens, ← parseOptErr f, soft⟩
   | _ => none
 
 def parseOp : List String → Option Op
